@@ -341,6 +341,79 @@ Theorem column_request_ids_order col size key keys keys' st :
 Proof.
   intros Hc Hp. unfold column_request, column_evaluate, get_shard. rewrite (Hc _ _ Hp). reflexivity.
 Qed.
+(* ---------- C11: the same request while other threads use the stores ----------
+   [env] is applied between any two store accesses of the call; it may do anything that keeps the stores right
+   (requests of other threads through any column, clears, writes of CacheToDisk layers). *)
+Section Concurrent.
+Variable env : nat -> colstore -> colstore.
+Hypothesis env_inv : forall n st, Inv st -> Inv (env n st).
+
+Lemma inv_ram_set st col k : Inv st -> Inv (ram_set st (h col k) (v col k)).
+Proof.
+  intros [Hr Hd]. split; [|exact Hd]. intros hh x [Heq|Hin]; [|exact (Hr _ _ Hin)].
+  injection Heq as <- <-. exists col, k. split; reflexivity.
+Qed.
+
+Lemma inv_ram_fill_i n st col ks : Inv st -> Inv (ram_fill_i env n st (map (h col) ks) (map (v col) ks)).
+Proof.
+  revert n st. induction ks as [|k t IH]; cbn; intros n st HI; [exact HI|].
+  apply IH. apply inv_ram_set. apply env_inv. exact HI.
+Qed.
+
+Theorem column_request_concurrent col size key keys st r st' ev :
+  Inv st -> exact_key key -> In key keys -> size <> Some 0 ->
+  column_request_i req deq keq sorted get_hash get_value env col size key keys st = (r, st', ev) ->
+  (r = COk (v col key) \/ exists f, r = CErr (EUser f)) /\ Inv st'.
+Proof.
+  intros HI HK Hin Hs. unfold column_request_i.
+  destruct (get_hash col key) as [out|] eqn:G.
+  2:{ intros H. injection H as <- <- <-. split; [right; eexists; reflexivity|exact HI]. }
+  apply get_hash_ok in G. subst out. unfold column_evaluate_i.
+  pose proof (env_inv 0 _ HI) as HI1. set (st1 := env 0 st) in *.
+  destruct (ram_get req st1 (h col key)) as [x|] eqn:R.
+  { intros H. injection H as <- <- <-. split; [left|exact HI1].
+    apply afind_some in R as (hh & Hh & He). destruct HI1 as [Hr _]. destruct (Hr _ _ Hh) as (c & k & -> & ->).
+    f_equal. symmetry. apply req_sound. exact He. }
+  destruct (get_shard_in size key keys HK Hin Hs) as (ks & c & i & -> & Hk).
+  destruct (hash_loop req keq get_hash col (h col key) key ks) as [rh evh] eqn:L.
+  destruct (hash_loop_ok _ _ _ _ _ HK L) as [[-> ->]|[f ->]].
+  2:{ intros H. injection H as <- <- <-. split; [right; eexists; reflexivity|exact HI1]. }
+  fold (compound (map (h col) ks)).
+  pose proof (env_inv 1 _ HI1) as HI2. set (st2 := env 1 st1) in *.
+  assert (forall n evs stx, finish_i keq env n stx key ks (map (h col) ks) (map (v col) ks) evs
+                            = (COk (v col key), ram_fill_i env n stx (map (h col) ks) (map (v col) ks), evs)) as Hfin.
+  { intros n evs stx. unfold finish_i. rewrite (pick_map _ _ _ _ HK), (existsb_in _ _ Hk). reflexivity. }
+  destruct (disk_get deq st2 (compound (map (h col) ks))) as [stored|] eqn:D.
+  - apply afind_some in D as (hh & Hh & He). apply deq_eq in He. subst hh.
+    destruct HI2 as [Hr Hd]. destruct (Hd _ _ Hh) as [(c' & k' & Heq & _)|(c' & ks' & Heq & ->)].
+    { exfalso. exact (disjoint c' k' col ks (eq_sym Heq)). }
+    injection Heq as Heq. rewrite <- (map_h_eq _ _ _ _ Heq). rewrite Hfin.
+    intros H. injection H as <- <- <-. split; [left; reflexivity|apply inv_ram_fill_i; split; assumption].
+  - destruct (value_loop get_value col ks) as [rv evv] eqn:V.
+    destruct (value_loop_ok _ _ _ _ V) as [[-> ->]|[f ->]].
+    2:{ intros H. injection H as <- <- <-. split; [right; eexists; reflexivity|exact HI2]. }
+    rewrite Hfin. intros H. injection H as <- <- <-. split; [left; reflexivity|].
+    apply inv_ram_fill_i. pose proof (env_inv 2 _ HI2) as [Hr Hd]. split; [exact Hr|].
+    intros hh x [Heq|H]; [|exact (Hd _ _ H)]. injection Heq as <- <-. right. exists col, ks. split; reflexivity.
+Qed.
+End Concurrent.
+
+(* with nobody else around this is the sequential body *)
+Lemma ram_fill_i_id n st hs vals : ram_fill_i (fun _ s => s) n st hs vals = ram_fill st hs vals.
+Proof. revert n st vals. induction hs as [|a hs IH]; intros n st [|b vals]; cbn; try reflexivity. apply IH. Qed.
+
+Lemma column_evaluate_i_id col size output key keys st :
+  column_evaluate_i req deq keq sorted get_hash get_value (fun _ s => s) col size output key keys st
+  = column_evaluate req deq keq sorted get_hash get_value col size output key keys st.
+Proof.
+  unfold column_evaluate_i, column_evaluate, finish_i, finish. cbv beta.
+  destruct (ram_get req st output); [reflexivity|].
+  destruct (get_shard keq sorted size key keys) as [e|[[ks c] i]]; [reflexivity|].
+  destruct (hash_loop req keq get_hash col output key ks) as [[e|hs] ev]; [reflexivity|].
+  destruct (disk_get deq st (HApply "builtins.tuple" hs [])) as [[]|]; try reflexivity.
+  - rewrite ram_fill_i_id. reflexivity.
+  - destruct (value_loop get_value col ks) as [[e|vals] ev2]; [reflexivity|]. rewrite ram_fill_i_id. reflexivity.
+Qed.
 End Facts.
 
 (* ---------- the equalities of the real stores ---------- *)
